@@ -19,6 +19,7 @@ deriving Repr, BEq, DecidableEq
 
 /-- Result class of one `Read` / of `ToBytes`. -/
 inductive RErr | ok | eof | fail | closed
+  | transport      -- `RoundTrip` itself failed: there is no response (multi-exchange calls, `Call.lean`)
 deriving Repr, BEq, DecidableEq
 
 /-- Go's error convention: `ok` is the nil error. -/
@@ -97,6 +98,7 @@ structure Cfg where
   reqDisable : Bool          -- Request.DisableAutoReadResponse
   save : Bool                -- Request.SetOutput / SetOutputFile
   result : Bool              -- Request.SetSuccessResult (a result object to unmarshal into)
+  errResult : Bool := false  -- Request.SetErrorResult / Client.SetCommonErrorResult
 deriving Repr, BEq, DecidableEq
 
 /-- client.go:1740 auto-read guard. -/
@@ -118,11 +120,18 @@ def handleDownload (cfg : Cfg) (r : Resp) : Resp :=
       | .eof | .ok => r'
       | e => { r' with err := some e }
 
-/-- middleware.go `parseResponseBody` with a success-result object set: in the success state
-(200..299) and unless the status is 204 it unmarshals, i.e. calls `ToBytes`. Whether the
-bytes unmarshal is outside this model (the lanes use bodies that do). -/
+/-- Does `parseResponseBody` unmarshal a response of this status?  In the success state
+(200..299, `defaultResultStateChecker`) with a success-result object unless the status is 204;
+in the error state (≥ 400) with an error-result object. -/
+def wantsBind (cfg : Cfg) (st : Nat) : Bool :=
+  (cfg.result && decide (199 < st) && decide (st < 300) && decide (st ≠ 204)) ||
+  (cfg.errResult && decide (399 < st))
+
+/-- middleware.go `parseResponseBody` with a result object set for the response's state: it
+unmarshals, i.e. calls `ToBytes`. Whether the bytes unmarshal is outside this model (the
+lanes use bodies / unmarshal functions that do). -/
 def parseResponseBody (cfg : Cfg) (r : Resp) : Resp :=
-  if cfg.result ∧ 199 < r.status ∧ r.status < 300 ∧ r.status ≠ 204 then r.toBytes.2 else r
+  if wantsBind cfg r.status then r.toBytes.2 else r
 
 /-- `Client.roundTrip` after `httpClient.Do` succeeded: auto-read + restore, then the
 response middlewares `parseResponseBody` and `handleDownload`. -/
